@@ -363,6 +363,58 @@ func runSeq(c *kit.Ctx, id string) {
 		x := r.Intn(100)
 		k := universe[r.Intn(len(universe))]
 		switch {
+		case x < 5 && !secure && style != 3 && len(content) > 0:
+			// mirror: everything stored below one first byte is stored again, with the same values, below
+			// a sibling first byte that shares the high nibble - the two subtries are IDENTICAL, so one
+			// branch node references the same child hash from two slots
+			var src []byte
+			for kk := range content {
+				src = []byte(kk)
+				break
+			}
+			for _, cand := range universe { // deterministic choice (map order must not decide)
+				if _, in := content[string(cand)]; in && (src == nil || bytes.Compare(cand, src) < 0 || r.Intn(4) == 0) {
+					src = cand
+				}
+			}
+			if len(src) < 2 {
+				break
+			}
+			a := src[0]
+			b := a ^ byte(1+r.Intn(15)) // same high nibble, another low nibble
+			var ks []string
+			for kk := range content {
+				if kk[0] == a && len(kk) >= 2 {
+					ks = append(ks, kk)
+				}
+			}
+			sort.Strings(ks)
+			for _, kk := range ks {
+				nk := append([]byte{b}, kk[1:]...)
+				v := content[kk]
+				ops = append(ops, opRec{"put(mirror)", hex.EncodeToString(nk), len(v)})
+				update(nk, v)
+				content[string(nk)] = v
+			}
+			// siblings that existed below b with other suffixes would break the symmetry: remove them
+			var extra []string
+			for kk := range content {
+				if kk[0] == b {
+					if _, in := content[string(append([]byte{a}, kk[1:]...))]; !in {
+						extra = append(extra, kk)
+					}
+				}
+			}
+			sort.Strings(extra)
+			for _, kk := range extra {
+				ops = append(ops, opRec{Op: "del(mirror)", Key: hex.EncodeToString([]byte(kk))})
+				del([]byte(kk))
+				delete(content, kk)
+			}
+			if len(ks) > 0 {
+				feat["mirror"] = true
+				c.Count("mirrored_subtries", 1)
+			}
 		case x < 45:
 			v := genVal(r)
 			if style == 3 && len(content) > 0 && r.Intn(3) > 0 {
